@@ -340,5 +340,29 @@ func c10Check(c c10Case) vfResult {
 }
 
 func TestVerif_C10(t *testing.T) {
+	defer vfStats.dump()
+	if vfOnlySub("huge") && !vfReplayMode() && vfShard() < 3 {
+		kind := []string{"geojson-decider-last", "har-decider-last", "gltf-decider-last"}[vfShard()]
+		want := map[string][2]string{"geojson-decider-last": {"application/geo+json", ".geojson"}, "har-decider-last": {"application/json", ".har"}, "gltf-decider-last": {"model/gltf+json", ".gltf"}}[kind]
+		for _, n := range []int{70000, 1300000} {
+			doc := vfBig(kind, n)
+			for _, L := range []uint32{0, uint32(len(doc)), uint32(len(doc) + 1), 2 << 20, 0xffffffff} {
+				m := vfDetectAt(doc, L)
+				var r vfResult
+				r.Nontrivial, r.Labels, r.Hash = true, []string{"huge"}, vfHash([]byte(kind), vfHashU(uint64(n), uint64(L)))
+				if m.String() != want[0] || m.Extension() != want[1] {
+					r.Err = fmt.Errorf("%d-byte document whose deciding member is the LAST top-level member, limit %d: want %s (%s), got %s", len(doc), L, want[0], want[1], vfChainStr(m))
+				}
+				vfStats.record(r, func() any { return map[string]any{"sub": "huge", "kind": kind, "len": len(doc), "limit": L} })
+				if r.Err != nil {
+					vfEnumFail(t, "C10", "gen", c10Case{Doc: doc[:min(len(doc), 200)], Limit: L}, r.Err)
+					return
+				}
+			}
+		}
+	}
+	if t.Failed() || !vfOnlySub("gen") {
+		return
+	}
 	vfRun(t, vfSub[c10Case]{Prop: "C10", Name: "gen", Checks: vfN(120000, 40000000), Gen: c10Gen, Check: c10Check})
 }
